@@ -73,6 +73,10 @@ def run(tier, replay=None):
     # the feature that selects this code must be reachable from the crate a user enables it on (manifest wiring)
     from .. import features
     features.check(rep)
+    # the macros feature adds APIs that build values at compile time: "the only observable differences are the extra APIs themselves" holds only
+    # if what they build is what parsing the same literal gives (the witness leg of C16, cached per tree)
+    from . import c16
+    c16.witness_family(rep, tier)
     rep.explanation = ('For each crate and each feature set F, every function body, type, impl, static and root item of the base build is compared with the '
                        'build with F enabled (canonical MIR, DefIndex numbers and crate disambiguators stripped); bodies only in F are additions. '
                        'One named exception: character_direction, whose content is decided by the cascade rule of C14 in both configurations.')
